@@ -1,5 +1,6 @@
 import InfluxQL.Lemmas.Priv
 import InfluxQL.Model.PrivOfStmt
+import InfluxQL.Lemmas.ParsedWF
 /-!
 # C19 — required privileges cover everything a statement touches
 
@@ -258,17 +259,33 @@ theorem priv_text_compose (text : Str) (params : List (Str × BoundValue)) (tbl 
     | error f => exact Or.inr ⟨f, rfl, by simp only [hr]⟩
     | ok l => exact Or.inl ⟨l, rfl, by simp only [hr]⟩
 
-/-- **C19 end to end (non-empty, no error).** A text the parser accepts, whose statement passes the
-parser-guarantee test, gets a non-empty privilege list and no error — for every text, every
-statement kind. -/
+/-- **The parser's guarantees, proved**: every statement `ParseStatement` returns — for every text, bound
+parameters and lower table, through all 41 handlers — is `WellFormed` (every SELECT at any depth has at least
+one source; the SELECT of CREATE CONTINUOUS QUERY has an INTO target). The hypothesis of `nonempty_no_error`
+holds for everything that comes out of the parser (Lemmas/ParsedWF.lean: `parseStatementText_wf`). -/
+theorem parsed_wellFormed (text : Str) (params : List (Str × BoundValue)) (tbl : List (Char × Char)) (st : Statement)
+    (hp : parseStatementText text params tbl = .ok st) : WellFormed st :=
+  wellFormed_of_test st (parseStatementText_wf text params tbl st hp)
+
+/-- **C19 end to end (non-empty, no error), no hypothesis on the statement.** Every text the parser accepts
+gets a non-empty privilege list and no error — every text, every statement kind. In particular the nil
+dereference of `CreateContinuousQueryStatement.RequiredPrivileges` is unreachable through the parser. -/
 theorem priv_text_total (text : Str) (params : List (Str × BoundValue)) (tbl : List (Char × Char)) (st : Statement)
-    (hp : parseStatementText text params tbl = .ok st) (hwf : st.privWellFormed = true) :
+    (hp : parseStatementText text params tbl = .ok st) :
     ∃ l, privOfText text params tbl = .ok l ∧ l ≠ [] := by
-  obtain ⟨l, hl, hne⟩ := nonempty_no_error st (wellFormed_of_test st hwf)
+  obtain ⟨l, hl, hne⟩ := nonempty_no_error st (parsed_wellFormed text params tbl st hp)
   refine ⟨l, ?_, hne⟩
   unfold privOfText
   rw [hp]
   simp only [hl]
+
+/-- The same without naming the statement: `privOfText` is a parse failure or a non-empty list; it is never
+an error of `RequiredPrivileges` and never the empty list. -/
+theorem priv_text_outcomes (text : Str) (params : List (Str × BoundValue)) (tbl : List (Char × Char)) :
+    (∃ f, privOfText text params tbl = .parseFail f) ∨ (∃ l, privOfText text params tbl = .ok l ∧ l ≠ []) := by
+  cases hp : parseStatementText text params tbl with
+  | error f => exact Or.inl ⟨f, by unfold privOfText; rw [hp]⟩
+  | ok st => exact Or.inr (priv_text_total text params tbl st hp)
 
 /-- **C19 end to end (reads at every depth, write on the target).** When the text parses to a SELECT, or
 to EXPLAIN of a SELECT, the list computed from the text holds a read privilege on the database of every
